@@ -1,5 +1,106 @@
-"""SE part of C09 (schedule enumeration); see mc/sched.py."""
+"""SE part of C09: all 2-thread schedules of concurrent translations from cold token tables up to a preemption bound
+(explorer and scheduler: mc/sched.py)."""
+from mc import driver as D
+
+PAIRS = {
+    # the same cell addresses and token shapes, other operators / constants: anything shared by address, position or
+    # length between two parses collides
+    'small': ([('S', {'A1': 2, 'B1': '=A1+2'})], [('S', {'A1': 3, 'B1': '=A1*3'})]),
+    'calls': ([('S', {'A1': 2, 'B1': '=A1+2', 'C1': '=IF(A1>1,SUM(A1,B1),"n")'})],
+              [('S', {'A1': 3, 'B1': '=A1*3', 'C1': '=IF(A1<1,MAX(A1,B1),"y")'})]),
+}
+_JOBS = {}
+_BASE = {}
+_COLD_OK = [None]
+
+
+def jobs(pair):
+    if pair not in _JOBS:
+        _JOBS[pair] = [D.build_xlsx(spec) for spec in PAIRS[pair]]
+    return _JOBS[pair]
+
+
+def baseline(pair):
+    if pair not in _BASE:
+        out = []
+        for j in jobs(pair):
+            j.seek(0)
+            out.append(D.Parser().disable_safety_check().set_excel_file_path(j).get_translation())
+        _BASE[pair] = out
+    return _BASE[pair]
 
 
 def phases(tier, seed):
-    return []
+    from mc import sched
+    th = tier == 'thorough'
+    plan = {'small': 2 if th else 1, 'calls': 1 if th else 0}
+    cases = []
+    for pair, bound in plan.items():
+        base = baseline(pair)
+        for first in (0, 1):
+            cases.append({'pair': pair, 'first': first, 'k1': None, 'bound': bound})
+            if bound >= 1:
+                n = sched.execute(jobs(pair), first, []).count
+                for k1 in range(n):
+                    cases.append({'pair': pair, 'first': first, 'k1': k1, 'bound': bound})
+    return [{'name': 'two-thread-schedules', 'cases': cases, 'runner': 'run_se', 'chunk': 6 if th else 40}]
+
+
+def run_se(cases, stats):
+    from mc import sched
+    vio = []
+    if _COLD_OK[0] is None:
+        sched.install()
+        sched.reset_cold()
+        mine, fresh = sched.table_state(), sched.cold_state_of_fresh_interpreter()
+        _COLD_OK[0] = mine == fresh
+        if not _COLD_OK[0]:
+            diff = sorted(k for k in fresh if fresh[k] != mine.get(k))[:5]
+            return [{'i': 0, 'desc': {'clause': 'schedule', 'outcome': 'HARNESS_COLD_STATE_DIFFERS'}, 'expected': 'cold tables as in a fresh '
+                     'interpreter', 'observed': diff, 'noconfirm': True}]
+    for i, c in enumerate(cases):
+        pair, first, k1, bound = c['pair'], c['first'], c['k1'], c['bound']
+        base = baseline(pair)
+
+        def one(switch):
+            s = sched.execute(jobs(pair), first, switch)
+            stats['x:schedules'] += 1
+            stats['transitions'] += 1
+            stats['x:scheduling_points_visited'] += s.count
+            stats['validated'] += 1
+            if s.preemptions:
+                stats['nontrivial'] += 1
+            bad = None
+            if s.hang:
+                bad = 'HANG'
+            else:
+                for t, r in enumerate(s.results):
+                    if r is None or r[0] != 'TEXT':
+                        bad = 'NO_RESULT' if r is None else r[0]
+                    elif r[1] != base[t]:
+                        bad = 'TEXT_DIFFERS'
+            stats['out:' + (bad or 'same-as-sequential')] += 1
+            if bad:
+                vio.append({'i': i, 'desc': {'clause': 'schedule', 'pair': pair, 'preemptions': s.preemptions, 'outcome': bad},
+                            'expected': 'both texts equal the sequential baselines',
+                            'observed': {'first': first, 'switch_at': list(switch), 'preempted_at': [list(x) for x in s.points_where],
+                                         'results': [None if r is None else (r[0] if r[0] != 'TEXT' else 'TEXT') for r in s.results]}})
+            return s
+
+        if k1 is None:
+            a = one([])
+            b = sched.execute(jobs(pair), first, [])       # the same schedule twice: identical observations
+            if (a.count, a.results) != (b.count, b.results):
+                vio.append({'i': i, 'desc': {'clause': 'schedule', 'pair': pair, 'outcome': 'NONDETERMINISTIC_REPLAY'},
+                            'expected': [a.count], 'observed': [b.count], 'noconfirm': True})
+            stats['x:points_per_execution_' + pair] = max(stats['x:points_per_execution_' + pair], a.count)
+            continue
+        s1 = one([k1])
+        if bound >= 2 and s1.preemptions:
+            for k2 in range(k1 + 1, s1.count):
+                one([k1, k2])
+    # one violation per descriptor is enough
+    uniq = {}
+    for v in vio:
+        uniq.setdefault(repr(sorted(v['desc'].items())), v)
+    return list(uniq.values())
